@@ -495,15 +495,13 @@ _lib_findings = lib.Run.findings
 
 
 def local_findings(run):
-    """findings.d/C12.json is merged into known_findings.json by the lead (harness/mkfindings.py); until then the
-    entries of this property are read from findings.d directly.  lib.py is not edited: the method is wrapped here,
-    in the process that checks C12 only."""
-    base = _lib_findings(run)
+    """findings.d/C12.json is the source the lead merges into known_findings.json (harness/mkfindings.py).  For this
+    property it is read directly, so that an entry that was moved to "fixed" here stops suppressing at once even
+    while known_findings.json still lists it.  lib.py is not edited: the method is wrapped in the C12 process only."""
     p = os.path.join(lib.VERIF, "findings.d", "C12.json")
     if run.prop == "C12" and os.path.exists(p):
-        have = {e["id"] for e in base}
-        base = base + [e for e in json.load(open(p)).get("open", []) if e["id"] not in have and e["property"] == run.prop]
-    return base
+        return [e for e in json.load(open(p)).get("open", []) if e["property"] == run.prop]
+    return _lib_findings(run)
 
 
 lib.Run.findings = local_findings
